@@ -46,22 +46,39 @@ Theorem C17_no_hang_session : forall fuel cfg msgs (s : srv), fx_arm cfg = true 
 Proof. exact C17_session_no_hang_l. Qed.
 Print Assumptions C17_no_hang_session.
 
-(* Send / Reset / Close on ANY state of a dialed client in which nothing blocked so far — whether or not a deadline
-   is currently set *)
+Theorem C17_no_hang_session2 : forall fuel cfg msgs (s : srv), fx_arm cfg = true ->
+  outcome_of (run (session2 fuel cfg msgs) (world0 s)) <> Hang.
+Proof. exact C17_session2_no_hang_l. Qed.
+Print Assumptions C17_no_hang_session2.
+
+(* the textproto pipeline of smtp.Client.cmd: T1 — no return between Text.StartResponse(id) and Text.EndResponse(id) —
+   and the invariant: whatever program has run from a state satisfying J (deadline set, nothing blocked, pipeline in
+   step), no command waits on an unfinished predecessor: every id handed out has had its EndResponse, unless its write
+   failed, and then no later write can succeed *)
+Theorem C17_source_cmd_ends_response : src_cmd_endresp = true.
+Proof. exact (eq_refl true). Qed.
+Print Assumptions C17_source_cmd_ends_response.
+
+Theorem C17_pipeline_in_step : forall A (m : prog A) w, Jinv w -> PipeOk (snd (run m w)).
+Proof. exact pipeline_in_step. Qed.
+Print Assumptions C17_pipeline_in_step.
+
+(* Send / Reset / Close on ANY state of a dialed client in which nothing blocked so far and whose pipeline is in step —
+   whether or not a deadline is currently set *)
 Theorem C17_no_hang_send : forall cfg msgs w, fx_arm cfg = true ->
-  opened (w_conn w) = true -> hung (w_conn w) = false ->
+  opened (w_conn w) = true -> hung (w_conn w) = false -> PipeOk w ->
   outcome_of (run (send_batch cfg msgs) w) <> Hang.
 Proof. exact C17_send_no_hang_l. Qed.
 Print Assumptions C17_no_hang_send.
 
 Theorem C17_no_hang_reset : forall cfg w, fx_arm cfg = true ->
-  opened (w_conn w) = true -> hung (w_conn w) = false ->
+  opened (w_conn w) = true -> hung (w_conn w) = false -> PipeOk w ->
   outcome_of (run (reset_client cfg) w) <> Hang.
 Proof. exact C17_reset_no_hang_l. Qed.
 Print Assumptions C17_no_hang_reset.
 
 Theorem C17_no_hang_close : forall cfg w, fx_arm cfg = true ->
-  opened (w_conn w) = true -> hung (w_conn w) = false ->
+  opened (w_conn w) = true -> hung (w_conn w) = false -> PipeOk w ->
   outcome_of (run (close_client cfg) w) <> Hang.
 Proof. exact C17_close_no_hang_l. Qed.
 Print Assumptions C17_no_hang_close.
@@ -76,6 +93,13 @@ Proof. vm_compute. reflexivity. Qed.
 
 Example C17_before_fix_refuted_noop :
   outcome_of (run (dial_and_send 8 (cfg17 false) [1%nat]) (world0 (srv0 [DOk; DOk; DStall] None [] [] HsOk))) = Hang.
+Proof. vm_compute. reflexivity. Qed.
+
+(* what an early return that skips EndResponse does (documentation; [endresp] = false): the server is silent at the
+   NOOP of checkConn, the NOOP times out, and the deferred QUIT of DialAndSend waits in StartResponse for ever *)
+Example C17_skipped_endresponse_refuted :
+  let w0 := mkW (srv0 [DOk; DOk; DStall] None [] [] HsOk) conn0 (cs0f false) [] in
+  outcome_of (run (dial_and_send 8 (cfg17 true) [1%nat]) w0) = Hang.
 Proof. vm_compute. reflexivity. Qed.
 
 (* non-vacuity: with the repair the same servers produce a timeout error *)
